@@ -4,12 +4,14 @@ From Pybtex Require Import Base.Prelude Base.PyChar Base.PyStr Model.RtTypes.
 
 Definition pair := (atom * list markup)%type.
 
-(* markup up to what the code identifies: the `external` flag of a hyperlink is forgotten (the
-   flag richtext.py loses, finding F10) and the deprecated tag name "emph" is read as "em" *)
+(* markup up to the one thing the constructors identify: the deprecated tag name "emph" is read
+   as "em" (Tag.__check_name).  Nothing else is forgotten: in particular the `external` flag of a
+   hyperlink is kept.  On every text the constructors can build `erase` is the identity
+   (Proofs: wf_flat). *)
 Definition canon_name (n : str) : str :=
   if str_eqb n [101; 109; 112; 104]%N then [101; 109]%N else n.
 Definition erase_m (m : markup) : markup :=
-  match m with MHRef u _ => MHRef u false | MTag n => MTag (canon_name n) | MProt => MProt end.
+  match m with MTag n => MTag (canon_name n) | _ => m end.
 Definition erase_p (p : pair) : pair := (fst p, map erase_m (snd p)).
 Definition erase (f : flat_text) : flat_text := map erase_p f.
 
